@@ -21,6 +21,7 @@ import PsutilModel.Proofs.C19Cores
 import PsutilModel.Proofs.C19Ext
 import PsutilModel.Proofs.C19Dir
 import PsutilModel.Proofs.C19Num
+import PsutilModel.Proofs.C19Boot
 import PsutilModel.Model.C19Gen
 namespace Psutil.C19
 open Spec
@@ -834,6 +835,100 @@ theorem C19_boot_time_global_kept (x : Rat) (ss : List FileState) : bootTimeGlob
   | cons s ss ih =>
     unfold bootTimeGlobal bootTimeCall
     cases bootTime s <;> simpa using ih
+
+/-! ### histories around the module global BOOT_TIME (seeded round 5; Model/C19Boot.lean, Spec/C19Boot.lean)
+
+  One interpreter, BOOT_TIME unset at the start; at every moment the kernel's /proc/stat is what it is THEN
+  (the clock may have been stepped by any amount, one second included) and one of `psutil.boot_time()`,
+  `Process.create_time()` (reads the global, sets it through boot_time() when unset), `psutil.cpu_stats()` is called. -/
+
+/-- obligation: BOOT_TIME is named only where the history model says (tested and written once in `boot_time()`, read
+    twice in `Process.create_time()`), the front end `psutil.boot_time()` is a plain delegation, `create_time()` is
+    `ctime / CLOCK_TICKS + (BOOT_TIME if BOOT_TIME is not None else boot_time())` -/
+theorem cfg_boot_hist : bootHistAsModelled = true := by decide
+
+/-- the statement, for a return rule of `boot_time()`: from a fresh interpreter, over EVERY history of calls and EVERY
+    sequence of kernel records, each `boot_time()` hands back the `btime` of its own moment and each `cpu_stats()`
+    the counters of its own moment — whatever was called before (`create_time()` included) and whatever `btime`
+    was before (the same, one second off, two, anything) -/
+def C19_boot_history_Full (rule : BootRule) : Prop :=
+  ∀ (ticks : Nat) (ks : List KStep), HistoryMirrors (histRun rule ticks none (ks.map KStep.toH)) ks
+
+theorem bootRule_fresh : bootRule = ruleFresh := by
+  unfold bootRule
+  rw [cfg_boot_fresh]
+  rfl
+
+/-- **boot_time() mirrors the kernel's btime at the time of the call** — over every history of boot_time() /
+    Process.create_time() / cpu_stats() calls and every movement of `btime` in between, for the code as it is -/
+theorem C19_boot_time_mirrors_every_history : C19_boot_history_Full bootRule := by
+  intro ticks ks
+  rw [bootRule_fresh]
+  exact histRun_mirrors_of_rule ruleFresh (fun _ _ => rfl) ticks none ks
+
+/-- …also when the history starts with the global already holding some earlier `btime` -/
+theorem C19_boot_time_mirrors_from_any_global (ticks : Nat) (g : Option Nat) (ks : List KStep) :
+    HistoryMirrors (histRun bootRule ticks (natG g) (ks.map KStep.toH)) ks := by
+  rw [bootRule_fresh]
+  exact histRun_mirrors_of_rule ruleFresh (fun _ _ => rfl) ticks g ks
+
+/-- WHICH return rules keep the promise: exactly those that hand back the value just read for every pair
+    (remembered boot time or none, value read) — a rule that deviates on ONE pair `(a, v)` is refuted by the
+    two-call history `btime = a`, then `btime = v` (this is the dimension the generator family `boot_hist` spans:
+    pairs of remembered and fresh values, the close ones included) -/
+theorem C19_boot_time_rule_iff (rule : BootRule) :
+    C19_boot_history_Full rule ↔ ∀ (g : Option Nat) (v : Nat), rule (natG g) (v : Rat) = (v : Rat) := by
+  constructor
+  · intro h g v
+    exact rule_of_histRun_mirrors rule (h 100) g v
+  · intro h ticks ks
+    exact histRun_mirrors_of_rule rule h ticks none ks
+
+/-- a "fluctuation tolerance" (serve the remembered value while the fresh one is within `tol` seconds of it) keeps the
+    promise iff it is shorter than the kernel's resolution of one second, i.e. iff it never applies -/
+theorem C19_boot_time_tolerance_iff (tol : Rat) : C19_boot_history_Full (ruleWithin tol) ↔ tol < 1 := by
+  rw [C19_boot_time_rule_iff]
+  constructor
+  · intro h
+    by_contra hn
+    have h1 := h (some 0) 1
+    rw [show ((1 : Nat) : Rat) = ((0 + 1 : Nat) : Rat) from rfl, ruleWithin_ge_one tol (not_lt.mp hn) 0] at h1
+    norm_num at h1
+  · intro ht g v
+    exact ruleWithin_lt_one tol ht g v
+
+/-- the one-second rule (what Windows does) is refuted -/
+theorem C19_boot_time_one_second_counterexample : ¬ C19_boot_history_Full (ruleWithin 1) := by
+  rw [C19_boot_time_tolerance_iff]
+  norm_num
+
+/-- …concretely, with `Process.create_time()` as the call that makes psutil remember the boot time: btime 1000,
+    create_time(); the clock is stepped by one second; boot_time() says 1000, the kernel 1001 -/
+theorem C19_create_time_then_one_second_counterexample :
+    ¬ HistoryMirrors
+        (histRun (ruleWithin 1) 100 none ([⟨recOf 1000, .createTime 5⟩, ⟨recOf 1001, .bootTime⟩].map KStep.toH))
+        [⟨recOf 1000, .createTime 5⟩, ⟨recOf 1001, .bootTime⟩] := by
+  intro h
+  have hb := h.2.1
+  have hg := histStep_global (ruleWithin 1) 100 none ⟨recOf 1000, .createTime 5⟩
+  simp only [natG] at hg
+  rw [answers_boot _ _ rfl, hg, histStep_out_boot (ruleWithin 1) 100 _ ⟨recOf 1001, .bootTime⟩ rfl] at hb
+  simp only [stepG, recOf, natG, ruleWithin] at hb
+  norm_num at hb
+
+/-- the pure cache (`return BOOT_TIME`) is refuted as well -/
+theorem C19_boot_time_cached_rule_counterexample : ¬ C19_boot_history_Full ruleCached := by
+  rw [C19_boot_time_rule_iff]
+  intro h
+  have h1 := h (some 0) 1
+  simp [ruleCached, natG] at h1
+
+/-- **create_time() does not follow clock updates**: over every history (any files, readable or not), ONE boot time
+    explains every successful create_time(): `start / CLOCK_TICKS + x` with the same `x` -/
+theorem C19_create_time_stable (ticks : Nat) (ss : List HStep) :
+    StableCreate ticks (histRun bootRule ticks none ss) ss := by
+  rw [bootRule_fresh]
+  exact stable_from_none ticks ss
 
 /-- the keys the kernel-side renderer of /proc/stat prints with and the parser looks for, spelled out
     (`cfg_names` ties the SOURCE's strings to the same constants) -/
